@@ -36,7 +36,7 @@ def driver_A():
 
 
 def driver_B():
-    structs = [("GS", [("int", "n"), (F2, "v")])]
+    structs = [("GS", [("int", "n"), (F2, "v")]), ("GA", [(("arr", "int", (2,)), "arr"), (("struct", "GS"), "inner"), ("int", "k")])]
     globals_ = [("int", "counter")]
     helper = func("helper", [("int", "p")], "int", [ASG(V("p"), B("+", V("p"), lit(10))), ("ret", V("p"))], export=False)
     fs = [
@@ -48,10 +48,19 @@ def driver_B():
                                                  ("ret", B("+", B("+", B("*", IDX(IDX(V("a"), 0), 1), lit(10)), IDX(IDX(V("a"), 1), 1)), B("+", IDX(IDX(V("a"), 0), 0), IDX(IDX(V("a"), 1), 0))))]),
         func("localstruct", [("int", "d")], "int", [("decl", ("struct", "GS"), "s", None), ASG(FLD(V("s"), "n"), B("+", B("+", FLD(V("s"), "n"), V("d")), lit(1))),
                                                    ASG(("swz", FLD(V("s"), "v"), "y"), lit(2.5)), ("ret", FLD(V("s"), "n"))]),
+        # a local struct with an array field and a nested struct field: both must be fresh on every invocation
+        func("localnested", [("int", "d")], "int", [("decl", ("struct", "GA"), "s", None), ASG(IDX(FLD(V("s"), "arr"), V("d")), B("+", IDX(FLD(V("s"), "arr"), V("d")), lit(5))),
+                                                   ASG(FLD(FLD(V("s"), "inner"), "n"), B("+", FLD(FLD(V("s"), "inner"), "n"), lit(1))), ASG(FLD(V("s"), "k"), B("+", FLD(V("s"), "k"), lit(2))),
+                                                   ("ret", B("+", B("+", B("*", IDX(FLD(V("s"), "arr"), 0), lit(1000)), B("*", IDX(FLD(V("s"), "arr"), 1), lit(100))),
+                                                             B("+", B("*", FLD(FLD(V("s"), "inner"), "n"), lit(10)), FLD(V("s"), "k"))))]),
         func("localvec", [("int", "d")], "float", [("decl", F4, "w", None), ASG(IDX(V("w"), V("d")), B("+", IDX(V("w"), V("d")), lit(1.5))), ("ret", B("+", IDX(V("w"), 0), IDX(V("w"), 1)))]),
         func("consts", [("int", "d")], "float", [("decl", "float", "f", lit(1.0)), ("decl", "int", "i", lit(1)), ASG(V("f"), B("+", B("+", V("f"), V("i")), V("d"))), ("ret", V("f"))]),
         func("callthenread", [("int", "d")], "int", [("decl", "int", "r", ("call", "helper", [V("d")])), ("ret", B("+", B("*", V("r"), lit(100)), V("d")))]),
         func("touch", [("int", "d")], "int", [ASG(V("counter"), B("+", V("counter"), lit(1))), wrap(V("counter"), 1), ("ret", V("counter"))]),
+        # recursion: a local set before the recursive call is read after it (activations must not share their value maps)
+        func("fact", [("int", "n")], "int", [("decl", "int", "keep", V("n")), ("if", B(">", V("n"), lit(1)), ("block", [("decl", "int", "sub", ("call", "fact", [B("-", V("n"), lit(1))])),
+                                                                                                                        ("ret", B("*", V("keep"), V("sub")))]), None), ("ret", lit(1))], export=False),
+        func("callrec", [("int", "d")], "int", [("ret", B("+", ("call", "fact", [B("+", V("d"), lit(3))]), B("*", V("counter"), lit(1000))))]),
     ]
     return {"name": "B", "prog": lang.prog(fs, globals_, structs), "domains": {"counter": [0, 1]},
             "invoke": [(f["name"], a) for f in fs if f["export"] for a in (0, 1)]}
